@@ -17,7 +17,7 @@ SEMANTIC = (
     'assertion failed', 'decreases not satisfied', 'possible arithmetic', 'possible division',
     'possible bit shift', 'index out of bounds', 'loop invariant', 'unreachable', 'recommendation not met',
     'termination', 'assert_by', 'could not prove termination', 'cannot show',
-    'failed to satisfy', 'may be out of bounds', 'not satisfied',
+    'failed to satisfy', 'may be out of bounds', 'not satisfied', 'unable to prove',
 )
 UNDECIDED = ('resource limit', 'rlimit', 'timed out', 'timeout', 'solver')
 
@@ -147,7 +147,11 @@ def run_verus(path, ex, name, rlimit=None, seed=None, timeout=900, extra=(), mul
         err = dict(message=msg, item=item, items=[w for w in where if w], clause=clause, labels=labels, out_line=line,
                    src_file=srcfile, src_line=srcline, rendered=d.get('rendered', ''))
         low = msg.lower()
-        if any(u in low for u in UNDECIDED):
+        if d.get('code'):
+            # a rustc error code (E0277, E0308, ...): the extracted text does not compile - never a verdict
+            err['class'] = 'tool'
+            nonsem.append(msg)
+        elif any(u in low for u in UNDECIDED):
             err['class'] = 'undecided'
         elif any(s in low for s in SEMANTIC):
             err['class'] = 'semantic'
@@ -193,7 +197,7 @@ def norm_ws(s):
 def verify_unit(unit, cfg=None, suffix='', canary=False, canary_at_start=(), outdir=None, **kw):
     try:
         path, ex = build_unit(unit, cfg, suffix, canary=canary, canary_at_start=canary_at_start, outdir=outdir)
-    except LostAnchor as e:
+    except (LostAnchor, ValueError, KeyError, IndexError, AssertionError) as e:
         r = UnitResult(unit + suffix)
         r.status, r.reason = 'undecided', 'extraction: %s' % e
         return r
